@@ -512,3 +512,34 @@ def rawinput(ctx):
                    "longer taken byte for byte (e.g. a feature ending in a space, or trailing "
                    "cells, are altered)" % (p.split("::")[-1], ", ".join(bad) or "source not found"))
     ctx.floor("RAWINPUT", "callers of Lexicon::parse_csv", n, 5)
+
+
+def csvdefault(ctx):
+    """CSVDEFAULT (C11, C14): lexicon rows are read and written with csv-core's default dialect
+    (comma, double quote, no comment character, no escape). A builder option (comment, delimiter,
+    quote, escape, double_quote, terminator) changes which rows exist and where fields end: e.g.
+    `comment(Some(b'#'))` silently drops every row whose surface starts with `#`."""
+    crate = ctx.facts("A").lib
+    E = Effects(crate)
+    n = 0
+    bad = []
+    for p, f in sorted(crate.fns.items()):
+        if not f.body or f.krate != "vibrato":
+            continue
+        fa = E.fa(p)
+        for b, t in fa.calls():
+            ps = [strip_generics(x) for x in callee_paths(t)]
+            if any("csv_core::" in x and ("Reader::new" in x or "Writer::new" in x) for x in ps):
+                n += 1
+            for x in ps:
+                if "csv_core::" in x and ("ReaderBuilder::" in x or "WriterBuilder::" in x):
+                    nm = x.rsplit("::", 1)[-1]
+                    if nm not in ("new", "build", "default"):
+                        bad.append("%s(..) in %s at %s" % (nm, p.split("::")[-1], fa.loc(b)))
+                    else:
+                        n += 1
+    ctx.ob("CSVDEFAULT", "csv-core-default-dialect", not bad, "vibrato/src (csv_core users)",
+           "every csv-core reader/writer uses the default dialect (%d construction sites)" % n if not bad else
+           "a csv-core reader/writer is configured with %s: rows and field boundaries no longer "
+           "follow the plain CSV dialect of the lexicon files" % "; ".join(bad))
+    ctx.floor("CSVDEFAULT", "csv-core constructions", n, 3)
